@@ -7,8 +7,9 @@ import CalicoVerif.Model.C42
   `apply HOST ZONE FAILPHASE (S name cip port proto np EXT LB SRC aff flags hc topo n (E ip port flags ZH NH){n})*`
      SRC items `ip/len/v6`; aff `-` or seconds; S flags 1=extLocal 2=intLocal 4=exclude 8=reapUDP;
      E flags 1=local 2=ready 4=serving 8=terminating.
-Output of `apply`: `ok|err`, the executed non-empty phases (writes sorted inside a phase) and the final
-maps, with service IDs replaced by canonical labels (first frontend key that carries the ID). -/
+     followed by one word `ids=name@P=id,name@R<node>=id,…` (or `ids=-`): the service IDs of the real run,
+     which resolve the arbitrary Go map iteration order (checked by the model: `bad-hint`).
+Output of `apply`: `ok|err`, the executed non-empty phases (writes sorted inside a phase) and the final maps. -/
 open CalicoVerif CalicoVerif.C42 CalicoVerif.Proto
 
 def parseList (s : String) : List String := if s == "-" then [] else s.splitOn ","
@@ -69,24 +70,13 @@ def sortStr (xs : List String) : List String := xs.mergeSort (fun a b => decide 
 def showFKey (k : FKey) : String := s!"{k.ip}:{k.port}:{k.proto}:{k.srcIp}/{k.srcLen}"
 def showBVal (v : BVal) : String := s!"{v.ip}:{v.port}"
 
-def sigOf (B : AMap BKey BVal) (id : Nat) : String :=
-  ",".intercalate (sortStr ((B.filter (fun kv => kv.1.id == id)).map (fun kv => s!"{kv.1.idx}={showBVal kv.2}")))
+def showFVal (v : FVal) : String := s!"{v.id},{v.count},{v.lcl},{v.aff},{v.flags}"
 
-/-- canonical, ID-renaming-invariant name of a service ID relative to the maps before/after an apply. -/
-def labelOf (pre post : DP) (id : Nat) : String :=
-  match sortStr ((pre.F.filter (fun kv => kv.2.id == id)).map (fun kv => showFKey kv.1)) with
-  | k :: _ => "p" ++ k
-  | [] => match sortStr ((post.F.filter (fun kv => kv.2.id == id)).map (fun kv => showFKey kv.1)) with
-    | k :: _ => "n" ++ k
-    | [] => "o" ++ sigOf pre.B id ++ "~" ++ sigOf post.B id
-
-def showFVal (lab : Nat → String) (v : FVal) : String := s!"{lab v.id},{v.count},{v.lcl},{v.aff},{v.flags}"
-
-def showWrite (lab : Nat → String) : Write → String
+def showWrite : Write → String
   | .delF k => showFKey k
-  | .setB k v => s!"{lab k.id}.{k.idx}={showBVal v}"
-  | .setF k v => s!"{showFKey k}={showFVal lab v}"
-  | .delB k => s!"{lab k.id}.{k.idx}"
+  | .setB k v => s!"{k.id}.{k.idx}={showBVal v}"
+  | .setF k v => s!"{showFKey k}={showFVal v}"
+  | .delB k => s!"{k.id}.{k.idx}"
 
 def phaseTag : List Write → String
   | .delF _ :: _ => "dF"
@@ -95,15 +85,32 @@ def phaseTag : List Write → String
   | .delB _ :: _ => "dB"
   | [] => ""
 
-def showDP (lab : Nat → String) (d : DP) : String :=
-  "F[" ++ ";".intercalate (sortStr (d.F.map (fun kv => s!"{showFKey kv.1}={showFVal lab kv.2}"))) ++ "]|B[" ++
-  ";".intercalate (sortStr (d.B.map (fun kv => s!"{lab kv.1.id}.{kv.1.idx}={showBVal kv.2}"))) ++ "]"
+def showDP (d : DP) : String :=
+  "F[" ++ ";".intercalate (sortStr (d.F.map (fun kv => s!"{showFKey kv.1}={showFVal kv.2}"))) ++ "]|B[" ++
+  ";".intercalate (sortStr (d.B.map (fun kv => s!"{kv.1.id}.{kv.1.idx}={showBVal kv.2}"))) ++ "]"
 
-def showApply (pre post : DP) (ok : Bool) (phases : List (List Write)) : String :=
-  let lab := labelOf pre post
+def showApply (post : DP) (ok : Bool) (phases : List (List Write)) : String :=
   let ps := (phases.filter (fun p => !p.isEmpty)).map (fun p =>
-    phaseTag p ++ "[" ++ ";".intercalate (sortStr (p.map (showWrite lab))) ++ "]")
-  "|".intercalate ([if ok then "ok" else "err"] ++ ps ++ [showDP lab post])
+    phaseTag p ++ "[" ++ ";".intercalate (sortStr (p.map showWrite)) ++ "]")
+  "|".intercalate ([if ok then "ok" else "err"] ++ ps ++ [showDP post])
+
+/-- `ids=name@P=3,name@R<node>=4,…` : the service IDs observed on the real run. -/
+def parseHintEntry (e : String) : Option (SvcKey × Nat) :=
+  match e.splitOn "@" with
+  | [name, r] => match r.splitOn "=" with
+    | [k, id] => do
+      let id ← id.toNat?
+      if k == "P" then pure (⟨name, .prim⟩, id)
+      else if k.startsWith "R" then do
+        let ip ← (k.drop 1).toString.toNat?
+        pure (⟨name, .npRemote ip⟩, id)
+      else none
+    | _ => none
+  | _ => none
+
+def parseHint (w : String) : Option (AMap SvcKey Nat) :=
+  if !w.startsWith "ids=" then none
+  else allSome ((parseList (w.drop 4).toString).map parseHintEntry)
 
 def nats (ws : List String) : Option (List Nat) := allSome (ws.map String.toNat?)
 
@@ -129,14 +136,16 @@ def step (s : Syncer) (line : String) : Syncer × String :=
   | "unpokeB" :: rest => match nats rest with
     | some [id, idx] => ({ s with dp := { s.dp with B := s.dp.B.del ⟨id, idx⟩ } }, "ok")
     | _ => (s, "bad-op")
-  | "apply" :: host :: zone :: fp :: rest => match fp.toNat?, parseSvcs (rest.length + 1) rest with
-    | some fp, some svcs =>
+  | "apply" :: host :: zone :: fp :: rest0 =>
+    let rest := rest0.dropLast
+    match fp.toNat?, parseSvcs (rest.length + 1) rest, rest0.getLast?.bind parseHint with
+    | some fp, some svcs, some hint =>
       let st : KState := { svcs := svcs.map (fun x => (x.1, x.2.1)),
                            eps := svcs.foldl (fun m x => if x.2.2.isEmpty then m else m.set x.1 x.2.2) [],
                            host := if host == "-" then "" else host, zone := if zone == "-" then "" else zone }
-      let (s', ok, phases) := s.apply st fp
-      (s', showApply s.dp s'.dp ok phases)
-    | _, _ => (s, "bad-op")
+      let r := s.apply st hint fp
+      if r.hintOk then (r.syncer, showApply r.syncer.dp r.ok r.phases) else (r.syncer, "bad-hint")
+    | _, _, _ => (s, "bad-op")
   | _ => (s, "bad-op")
 
 def main : IO Unit := run step (Syncer.new [] [] ⟨[], []⟩)
